@@ -560,8 +560,33 @@ def gen_case(rng):
     return case
 
 
+def gen_ties(rng):
+    """Databases whose entries tie on the (author, year, title) sorting key, cited in an order unrelated to the order of their keys."""
+    n = rng.randint(2, 6)
+    keys = rng.sample(['zeta', 'mid', 'alpha', 'Beta', 'k1', 'K0', 'omega', 'a'], n)
+    authors = rng.sample(['John Smith', 'Ann Lee', 'john smith'], rng.randint(1, 2))
+    entries = []
+    for k in keys:
+        fs = [['title', rng.choice(['Same title', 'Same title', 'Other'])], ['year', rng.choice(['2001', '2001', '1999'])]]
+        r = rng.random()
+        if r < 0.75:
+            fs.append(['author', rng.choice(authors)])
+        elif r < 0.85:
+            fs.append(['editor', rng.choice(authors)])
+        entries.append({'type': rng.choice(['misc', 'misc', 'book', 'unpublished']), 'key': k, 'fields': fs + [['publisher', 'P'], ['note', 'N']]})
+    cites = keys[:]
+    rng.shuffle(cites)
+    case = {'op': 'pystyle', 'entries': entries, 'citations': cites if rng.random() < 0.8 else ['*'], 'min_crossrefs': 2,
+            'style': rng.choice(['plain', 'alpha', 'unsrt', 'unsrtalpha']), 'sorting_style': 'author_year_title'}
+    if rng.random() < 0.5:
+        case['label_style'] = rng.choice(['number', 'alpha'])
+    return case
+
+
 def gen_cases(tier, rng, info):
     cases = []
+    for _ in range(150 if tier == 'quick' else 5000):
+        cases.append(gen_ties(rng))
     # every type with all fields and with the minimal required fields, every style
     for t in TYPES:
         full = [[f, VALUES.get(f, GENERIC)[0]] for f in FIELDS] + [['author', 'Donald E. Knuth and Leslie Lamport'], ['editor', 'Ed Itor']]
